@@ -17,4 +17,5 @@ let lookup (p : string) : Model.val0 -> Model.val0 =
   | "C07" -> Model.run_C07
   | "C06" -> Model.run_C06
   | "C04" -> Model.run_C04
+  | "C09" -> Model.run_C09
   | _ -> failwith ("unknown property " ^ p)
